@@ -1,9 +1,11 @@
 (* C41 wire functions.
    input  : [cfg hello]
      cfg   = [minV maxV preferServer suitesOpt priority protos curves poodle ticketsDisabled clientAuth
-              ecdsaKey ruleOpt]        suitesOpt = [] | [[ids]]     ruleOpt = [] | [[grade protos chacha clientAuth]]
-     hello = [vers suites comp curves points alpn npn sni sessionId ticket]
-              ticket = [0] none | [1] undecryptable | [2 vers suite ncerts] issued by this server
+              ecdsaKey ruleOpt rules certs cacheMode]
+              suitesOpt = [] | [[ids]]     ruleOpt = [] | [rule]     rule = [grade protos chacha clientAuth]
+              rules = [[sni rule] ...]   certs = [[name ecdsaKey] ...]   cacheMode 0 nil / 1 on / 2 disabled
+     hello = [vers suites comp curves points alpn npn sni sessionId ticket cacheEntry]
+              ticket, cacheEntry = [0] none | [1] undecryptable/undecodable | [2 vers suite ncerts] a session
    output : [0 alert] | [1 resume vers suite alpn npn protos] *)
 From Coq Require Import List ZArith Bool.
 From Bfe Require Import lib.Val lib.Bytes gen.TlsSuites model.TlsNego.
@@ -12,14 +14,31 @@ Open Scope Z_scope.
 
 Definition zb (z : Z) : bool := negb (z =? 0).
 
+Definition rule1_of (v : val) : option rule :=
+  match v with
+  | VL [VB g; ps; VZ ch; VZ ca] =>
+    match as_LB ps with
+    | Some ps' => Some {| r_grade := g; r_protos := ps'; r_chacha := zb ch; r_client_auth := zb ca |}
+    | None => None
+    end
+  | _ => None
+  end.
 Definition rule_of (v : val) : option (option rule) :=
   match v with
   | VL [] => Some None
-  | VL [VL [VB g; ps; VZ ch; VZ ca]] =>
-    match as_LB ps with
-    | Some ps' => Some (Some {| r_grade := g; r_protos := ps'; r_chacha := zb ch; r_client_auth := zb ca |})
-    | None => None
-    end
+  | VL [r] => match rule1_of r with Some r' => Some (Some r') | None => None end
+  | _ => None
+  end.
+Definition rules_of (v : val) : option (list (bytes * rule)) :=
+  match v with
+  | VL l => all_some (map (fun e => match e with
+                                    | VL [VB n; r] => match rule1_of r with Some r' => Some (n, r') | None => None end
+                                    | _ => None end) l)
+  | _ => None
+  end.
+Definition certs_of (v : val) : option (list (bytes * bool)) :=
+  match v with
+  | VL l => all_some (map (fun e => match e with VL [VB n; VZ e'] => Some (n, zb e') | _ => None end) l)
   | _ => None
   end.
 Definition suites_opt (v : val) : option (option (list Z)) :=
@@ -31,12 +50,17 @@ Definition suites_opt (v : val) : option (option (list Z)) :=
 
 Definition cfg_of (v : val) : option config :=
   match v with
-  | VL [VZ mn; VZ mx; VZ pf; so; pr; ps; cu; VZ po; VZ td; VZ ca; VZ ec; ro] =>
+  | VL [VZ mn; VZ mx; VZ pf; so; pr; ps; cu; VZ po; VZ td; VZ ca; VZ ec; ro; rs; ce; VZ cm] =>
     match suites_opt so, as_LZ pr, as_LB ps, as_LZ cu, rule_of ro with
     | Some so', Some pr', Some ps', Some cu', Some ro' =>
-      Some {| c_min := mn; c_max := mx; c_prefer_server := zb pf; c_suites := so'; c_priority := pr';
-              c_protos := ps'; c_curves := cu'; c_poodle := zb po; c_tickets_disabled := zb td;
-              c_client_auth := ca; c_ecdsa := zb ec; c_rule := ro' |}
+      match rules_of rs, certs_of ce with
+      | Some rs', Some ce' =>
+        Some {| c_min := mn; c_max := mx; c_prefer_server := zb pf; c_suites := so'; c_priority := pr';
+                c_protos := ps'; c_curves := cu'; c_poodle := zb po; c_tickets_disabled := zb td;
+                c_client_auth := ca; c_ecdsa := zb ec; c_rule := ro'; c_rules := rs'; c_certs := ce';
+                c_cache := cm |}
+      | _, _ => None
+      end
     | _, _, _, _, _ => None
     end
   | _ => None
@@ -51,12 +75,12 @@ Definition ticket_of (v : val) : option ticket :=
   end.
 Definition hello_of (v : val) : option hello :=
   match v with
-  | VL [VZ vers; su; VB comp; cu; VB points; al; VZ npn; VB _; VB sid; tk] =>
-    match as_LZ su, as_LZ cu, as_LB al, ticket_of tk with
-    | Some su', Some cu', Some al', Some tk' =>
+  | VL [VZ vers; su; VB comp; cu; VB points; al; VZ npn; VB sni; VB sid; tk; ck] =>
+    match as_LZ su, as_LZ cu, as_LB al, ticket_of tk, ticket_of ck with
+    | Some su', Some cu', Some al', Some tk', Some ck' =>
       Some {| h_vers := vers; h_suites := su'; h_comp := comp; h_curves := cu'; h_points := points;
-              h_alpn := al'; h_npn := zb npn; h_sid := sid; h_ticket := tk' |}
-    | _, _, _, _ => None
+              h_alpn := al'; h_npn := zb npn; h_sni := sni; h_sid := sid; h_ticket := tk'; h_cache := ck' |}
+    | _, _, _, _, _ => None
     end
   | _ => None
   end.
@@ -127,7 +151,8 @@ Definition spec_scsv_must_refuse (c : config) (h : hello) : bool :=
 
 Definition prop_C41 (i o : val) : bool :=
   match decode i with
-  | Some (c, h) =>
+  | Some (c0, h) =>
+    let c := eff c0 h in     (* the rule and certificate selected for this connection's server name *)
     match o with
     | VL [VZ 0; VZ _] => true                                   (* refused: nothing was negotiated *)
     | VL [VZ 1; VZ _; VZ v; VZ s; VB alpn; VZ npn; ps] =>
@@ -149,8 +174,15 @@ Definition kf_C41 (i : val) : Z :=
   match decode i with
   | Some (c, h) =>
     match negotiate c h with
-    | Done _ _ _ alpn _ _ => if spec_alpn_ok c h alpn then 0 else 3
+    | Done _ _ _ alpn _ _ => if spec_alpn_ok (eff c h) h alpn then 0 else 3
     | Alert _ => 0
     end
   | None => 0
+  end.
+
+(* well-formed harness inputs: decodable, non-empty configured version range *)
+Definition wf_C41 (i : val) : bool :=
+  match decode i with
+  | Some (c, h) => min_version c <=? max_version c
+  | None => false
   end.
